@@ -8,7 +8,7 @@ From NW Require Import Proofs.ServerInvBase Proofs.ServerInv Proofs.ServerUniq P
 Example C05_model_smoke :
   let cfg := {| domain := bs "localhost"; has_mod := false; op_auth := false; op_fbp := false; op_fev := false; op_spp := false;
                 proto := []; max_clients := 10; max_subs := 10; max_payload_cfg := 1024; max_inflight := 10; max_message := 1024;
-                keepalive := 60000; min_keepalive := 1000; max_conns := 16; pool_budget := 4194304 |} in
+                keepalive := 60000; min_keepalive := 1000; max_conns := 16; pool_budget := 4194304; max_channels := 100 |} in
   let s := run_state cfg init [Open 1; Bytes 1 (bs "CONNECT version=1 heartbeat_interval=0" ++ [NL]) [] [];
                                Bytes 1 (bs "IDENTIFY username=alice" ++ [NL]) [] [];
                                Bytes 1 (bs "JOIN id=1 channel=!c1@localhost" ++ [NL]) [] []] in
